@@ -41,6 +41,9 @@ func TestVerifBounded(t *testing.T) {
 		if in.Len != len(code) {
 			t.Fatalf("COUNTEREXAMPLE %s: encoder emitted % x (%d bytes) but the decoder reads an instruction of %d bytes: %v", desc, code, len(code), in.Len, in)
 		}
+		if want, ok := map[abi.As]x86asm.Op{AMOV: x86asm.MOV, AADD: x86asm.ADD, ASUB: x86asm.SUB, AAND: x86asm.AND, AOR: x86asm.OR, AXOR: x86asm.XOR, ACMP: x86asm.CMP}[as]; ok && in.Op != want {
+			t.Fatalf("COUNTEREXAMPLE %s: bytes % x decode to %v, another operation (want %v)", desc, code, in, want)
+		}
 		sawMem, sawReg := false, false
 		for _, a := range in.Args {
 			switch x := a.(type) {
@@ -78,5 +81,41 @@ func TestVerifBounded(t *testing.T) {
 			}
 		}
 	}
-	fmt.Printf("BOUNDED {\"cases\": %d, \"bound\": \"7 two-operand integer instructions; memory operand [base+disp] for all 16 base registers and %d displacements with 64- and 32-bit register operands; all 256 register-register pairs; decoded by the vendored x86asm decoder\"}\n", cases, len(disps))
+	// shifts and rotates of every 64- and 32-bit register by an immediate count (1 has a short form)
+	shifts := map[abi.As]x86asm.Op{ASHL: x86asm.SHL, ASHR: x86asm.SHR, ASAR: x86asm.SAR, AROL: x86asm.ROL, AROR: x86asm.ROR}
+	for _, as := range []abi.As{ASHL, ASHR, ASAR, AROL, AROR} {
+		for r := 0; r < 16; r++ {
+			for _, wide := range []bool{true, false} {
+				dst, xreg, bits := REG_RAX+abi.RegType(r), x86asm.RAX+x86asm.Reg(r), int64(64)
+				if !wide {
+					dst, xreg, bits = REG_EAX+abi.RegType(r), x86asm.EAX+x86asm.Reg(r), 32
+				}
+				for _, n := range []int64{1, 2, 7, 8, 31, bits - 1} {
+					cases++
+					desc := fmt.Sprintf("%v %v, %d", shifts[as], xreg, n)
+					code, err := Encode(as, &abi.X64Argument{Dst: reg(dst), Src: &abi.X64Operand{Kind: abi.X64Operand_Imm, Imm: n}})
+					if err != nil {
+						t.Fatalf("COUNTEREXAMPLE %s: encoder rejects the instruction: %v", desc, err)
+					}
+					in, err := x86asm.Decode(append(append([]byte{}, code...), 0x90, 0x90, 0x90, 0x90), 64)
+					if err != nil || in.Len != len(code) {
+						t.Fatalf("COUNTEREXAMPLE %s: bytes % x do not decode to one instruction of that length: %v %v", desc, code, in, err)
+					}
+					okReg, okCnt := false, false
+					for _, a := range in.Args {
+						switch x := a.(type) {
+						case x86asm.Reg:
+							okReg = okReg || x == xreg
+						case x86asm.Imm:
+							okCnt = okCnt || int64(x) == n
+						}
+					}
+					if in.Op != shifts[as] || !okReg || !okCnt {
+						t.Fatalf("COUNTEREXAMPLE %s: bytes % x decode to %v", desc, code, in)
+					}
+				}
+			}
+		}
+	}
+	fmt.Printf("BOUNDED {\"cases\": %d, \"bound\": \"7 two-operand integer instructions; memory operand [base+disp] for all 16 base registers and %d displacements with 64- and 32-bit register operands; all 256 register-register pairs; SHL/SHR/SAR/ROL/ROR of all 16 registers (64 and 32 bit) by 6 immediate counts; operation, operands and length decoded by the vendored x86asm decoder\"}\n", cases, len(disps))
 }
